@@ -14,7 +14,7 @@
 //!   taylorExpCmp = Taylor partial sums with the Lagrange remainder bound·x^(n+1)/(n+1)!
 use num_bigint::BigInt;
 use num_integer::Integer;
-use num_traits::{One, Signed, Zero};
+use num_traits::{Signed, Zero};
 use std::sync::LazyLock;
 
 use crate::fx::P34;
@@ -162,7 +162,7 @@ pub fn ln(x: &BigInt) -> Option<BigInt> {
     Some(n_fx + lncf(&x1, 1000))
 }
 
-/// Result of the `***` port; `Special` marks the closed-form cases.
+/// The core of `***` for a positive base (the closed-form cases are handled by the caller).
 pub fn pow_core(base: &BigInt, exponent: &BigInt) -> BigInt {
     // exp'(y ⊗ ln' x), base > 0
     let l = ln(base).expect("positive base");
@@ -201,9 +201,4 @@ pub fn exp_cmp(max_n: u64, x: &BigInt, bound: i64, compare: &BigInt) -> (BigInt,
         }
     }
     (acc, Est::Unknown, n)
-}
-
-#[allow(dead_code)]
-pub fn one() -> BigInt {
-    BigInt::one() * &*P34
 }
